@@ -98,12 +98,19 @@ def write_ninja(variant):
     # the util needs a few library objects (crypto factory etc.) - link against the archive
     L.append("build softhsm2-util: link %s libsofthsm2.a" % " ".join(uobjs))
     targets += ["libsofthsm2.so", "softhsm2-util"]
+    L.append("rule cc_plain\n  command = gcc -O2 -fPIC -w -c $in -o $out\n  description = CC(uninstrumented) $out")
     for name, srcs, extra, needs in harness_sources():
         objs = []
         for s in srcs:
             o = obj_name(s)
             objs.append(o)
             L.append("build %s: cxx %s\n  extra = %s" % (o, s, extra))
+        if name == "p11sh":
+            # hand-over primitives the sanitizers must not see (see engine/p11sh/rawsync.c)
+            for s in sorted(glob.glob(os.path.join(VERIF, "engine/p11sh/*.c"))):
+                o = "obj/verif_" + os.path.basename(s).replace(".c", ".plain.o")
+                objs.append(o)
+                L.append("build %s: cc_plain %s" % (o, s))
         L.append("build %s: link %s %s" % (name, " ".join(objs), "libsofthsm2.a" if needs else ""))
         targets.append(name)
     L.append("default %s" % " ".join(targets))
